@@ -13,7 +13,7 @@ from scipy.sparse import csr_array
 from common import coq_eval, parse_ints, try_coq
 from solvers import solve_with_batch, COMBOS, Prepared, dense_design, expanded_basis, forces_from_fc, solver_cells
 
-UNITS = ["ReshapeGen", "SolverStruct", "BatchGen", "DesignGen", "ShapesSolvers", "SkelSolvers", "ShapesApi", "SkelApi"]
+UNITS = ["ReshapeGen", "SolverStruct", "BatchGen", "DesignGen", "ShapesSolvers", "SkelSolvers", "ShapesApi", "SkelApi", "Tables", "IndepGen", "ShapesCombos", "ShapesPerm", "ShapesCoset", "ShapesSumRule", "ShapesSpg", "ShapesReps", "ShapesBasis", "ShapesO1", "ShapesAuxO1", "ShapesAuxEig", "ShapesAuxBatch", "EigStruct", "CutoffGen", "ShapesGeom", "ShapesAuxCut", "SkelSpg", "SkelBasis", "SkelEig", "SkelMat", "SkelPerm", "SkelIdx", "SkelCut"]
 PROPS = ["props/C05.v"]
 ASSUMPTIONS = ["conditioning and rounding are outside the theorems: recovery is checked to 1e-6 relative on designs with condition number < 1e8",
                "sparse/dense products are exact real products in the model"]
